@@ -44,14 +44,16 @@ theorem flag_of_ready {x : Stream} (h : x.isSendReady = true) : flagB x = false 
   cases h3 : x.isPendingOpen <;> cases h4 : x.isPendingPush <;> simp_all
 
 theorem xp_sched (x : Stream) (h1 : x.isSendReady = true)
-    (h2 : XE sv x → locId sv x.id = true → suB x.state = true → False) :
+    (h2 : ∀ r, XEr sv r x → locId sv x.id = true → suB x.state = true → False) :
     (x.setQueued .pendingSend true).key = x.key ∧ Xp sv x (x.setQueued .pendingSend true) := by
-  refine ⟨rfl, ⟨fun hx => ⟨fun hl hs => (h2 hx hl hs).elim, fun hf => ?_⟩⟩⟩
-  have : flagB x = true := hf
-  rw [flag_of_ready h1] at this; cases this
+  have hnf : ∀ hf : flagB (x.setQueued .pendingSend true) = true, False := by
+    intro hf
+    have : flagB x = true := hf
+    rw [flag_of_ready h1] at this; cases this
+  exact ⟨rfl, ⟨fun r hx => ⟨fun hl hs => (h2 r hx hl hs).elim, fun hf => (hnf hf).elim, fun hf => (hnf hf).elim⟩⟩⟩
 
 theorem qPushSend_xk (s : Streams) (k : Nat) (h1 : (s.stream k).isSendReady = true)
-    (h2 : Live s k → XE sv (s.stream k) → locId sv (s.stream k).id = true → suB (s.stream k).state = true → False) :
+    (h2 : Live s k → ∀ r, XEr sv r (s.stream k) → locId sv (s.stream k).id = true → suB (s.stream k).state = true → False) :
     XK sv s (s.qPush .pendingSend k).1 := by
   unfold Streams.qPush; split
   · exact .refl _
@@ -59,7 +61,7 @@ theorem qPushSend_xk (s : Streams) (k : Nat) (h1 : (s.stream k).isSendReady = tr
     exact (modStream_xk_live _ _ _ (fun hl => xp_sched _ h1 (h2 hl))).trans (setQ_xk _ _ _)
 
 theorem scheduleSend_xk' (s : Streams) (k : Nat)
-    (h2 : Live s k → XE sv (s.stream k) → locId sv (s.stream k).id = true → suB (s.stream k).state = true → False) :
+    (h2 : Live s k → ∀ r, XEr sv r (s.stream k) → locId sv (s.stream k).id = true → suB (s.stream k).state = true → False) :
     XK sv s (s.scheduleSend k) := by
   unfold Streams.scheduleSend; split
   · next h1 => exact (qPushSend_xk s k h1 h2).trans (notifyTask_xk _)
@@ -67,11 +69,13 @@ theorem scheduleSend_xk' (s : Streams) (k : Nat)
 
 /-- a frame other than DATA is queued on an entry that is peer-initiated or whose send half is open -/
 theorem xp_append_nd (x : Stream) (f : SFrame) (hf : f.isData = false)
-    (hns : XE sv x → locId sv x.id = true → suB x.state = true → False) :
+    (hns : ∀ r, XEr sv r x → locId sv x.id = true → suB x.state = true → False) :
     ({ x with pendingSend := x.pendingSend ++ [f] } : Stream).key = x.key ∧
     Xp sv x { x with pendingSend := x.pendingSend ++ [f] } := by
-  refine ⟨rfl, ⟨fun hx => ⟨fun hl hs => (hns hx hl hs).elim, fun hfl => ?_⟩⟩⟩
   have hd := dsum_single_of_notData hf
+  have he : ∀ r, XEr sv r x → flagB x = true → x.bufferedSendData ≤ dsum (x.pendingSend ++ [f]) + r := by
+    intro r hx hfl; rw [dsum_append, hd]; exact hx.e hfl
+  refine ⟨rfl, ⟨fun r hx => ⟨fun hl hs => (hns r hx hl hs).elim, fun hfl => ?_, fun hfl => he r hx hfl⟩⟩⟩
   rcases hx.f hfl with hw | hd'
   · refine .inl ⟨hw.1, ?_, fun hp => absurd hp (by simp)⟩
     show dsum (x.pendingSend ++ [f]).head?.toList = 0
@@ -83,11 +87,11 @@ theorem xp_append_nd (x : Stream) (f : SFrame) (hf : f.isData = false)
     rw [dsum_append, hd, hd'.2.1]
 
 theorem queueFrame_xk' (s : Streams) (k : Nat) (f : SFrame) (hf : f.isData = false)
-    (hns : Live s k → XE sv (s.stream k) → locId sv (s.stream k).id = true → suB (s.stream k).state = true → False) :
+    (hns : Live s k → ∀ r, XEr sv r (s.stream k) → locId sv (s.stream k).id = true → suB (s.stream k).state = true → False) :
     XK sv s (s.queueFrame k f) := by
   unfold Streams.queueFrame
   refine (modStream_xk_live _ _ _ (fun hl => xp_append_nd _ f hf (hns hl))).trans (scheduleSend_xk' _ _ ?_)
-  intro hl hx hloc hsu
+  intro hl r hx hloc hsu
   have hl0 : Live s k := (SameKeys.modStream s k _).live.mp hl
   have hst := stream_modStream_live hl0 (fun st => ({ st with pendingSend := st.pendingSend ++ [f] } : Stream)) (fun _ => rfl)
   rw [hst] at hx hloc hsu
@@ -123,14 +127,14 @@ theorem tryAssignCapacity_xk (s : Streams) (k : Nat) : XK sv s (s.tryAssignCapac
     · have := hg.2
       unfold Stream.isSendReady at this ⊢
       rw [hk.1, hk.2.1]; exact this
-    · intro _ hx hloc hsu
+    · intro _ r hx hloc hsu
       have := (hx.n hloc hsu).2.2
       rw [hk.2.2] at this
       omega
   · exact h1.trans h2
 
 theorem scheduleSend_xk (s : Streams) (k : Nat) (h : (s.stream k).state.isClosed = true) : XK sv s (s.scheduleSend k) :=
-  scheduleSend_xk' s k (fun _ _ _ hsu => by rw [suB_closed h] at hsu; cases hsu)
+  scheduleSend_xk' s k (fun _ _ _ _ hsu => by rw [suB_closed h] at hsu; cases hsu)
 
 theorem assignConnectionCapacityLoop_xk (n : Nat) (s : Streams) : XK sv s (Streams.assignConnectionCapacityLoop n s) := by
   induction n generalizing s with
